@@ -283,7 +283,7 @@ Proof.
     rewrite forallb_app. cbn [forallb]. rewrite Hm, Hb, IH. reflexivity.
 Qed.
 Lemma out_run_leafy r : leafy (out_run r) = true.
-Proof. unfold out_run, leafy. cbn [elem_kids]. destruct (tr_text r); reflexivity. Qed.
+Proof. unfold out_run, leafy. cbn [elem_kids]. destruct (tr_txt r); reflexivity. Qed.
 Lemma olines_leafy ls : forallb leafy (olines ls) = true.
 Proof. apply olines_forall; [reflexivity | exact out_run_leafy]. Qed.
 
